@@ -82,6 +82,18 @@ fn single_comparable(c: &Clause, doc: &V) -> bool {
             },
             _ => false,
         },
+        // right-hand side given as a query: one scalar on the left; on the right resolved scalars of the same type only -
+        // any number of them for `in`, exactly one for the other operators
+        Clause::Binary { q, op, rhs: Arg::Q(_, rq), .. } => match (sem.sel(q, doc, &sc), sem.sel(rq, doc, &sc)) {
+            (Ok(ls), Ok(rs)) if ls.len() == 1 && !rs.is_empty() => match &ls[0] {
+                QR::R(v) if !matches!(v, V::List(_) | V::Map(_) | V::Null | V::Bool(_)) => {
+                    let same = rs.iter().all(|r| matches!(r, QR::R(w) if w.t() == v.t() && !matches!(w, V::List(_) | V::Map(_))));
+                    same && (matches!(op, BinOp::In) || rs.len() == 1)
+                }
+                _ => false,
+            },
+            _ => false,
+        },
         _ => false,
     }
 }
